@@ -74,6 +74,18 @@ impl CollapsibleMarginSet {
     }
 }
 
+#[cfg(taffy_verif)]
+impl CollapsibleMarginSet {
+    /// Verification hook: both components of the set `(positive, negative)`
+    pub fn verif_parts(&self) -> (f32, f32) {
+        (self.positive, self.negative)
+    }
+    /// Verification hook: build a set from its components
+    pub fn verif_from_parts(positive: f32, negative: f32) -> Self {
+        Self { positive, negative }
+    }
+}
+
 /// An axis that layout algorithms can be requested to compute a size for
 #[derive(Debug, Copy, Clone, PartialEq, Eq)]
 #[cfg_attr(feature = "serde", derive(Serialize))]
